@@ -88,6 +88,12 @@ def recorder_counts():
     return {k: v for k, v in _REC.items() if k not in ('installed', 'funcs', 'per_key')}
 
 
+def reset_generation_counts():
+    """forget the per-(algebra, operator, pattern) generation counts (call at the start of a history case:
+    id() of a garbage-collected algebra can be reused by a new one)."""
+    _REC['per_key'].clear()
+
+
 def generated_more_than_once(alg):
     """(codegen name, key patterns) pairs for which generation SUCCEEDED more than once on this algebra object."""
     return {k[1:]: n for k, n in _REC['per_key'].items() if k[0] == id(alg) and n > 1}
